@@ -123,9 +123,9 @@ def count_theorems(props_file):
 def parse_assumptions(out):
     """split the output of a Props file into the per-theorem Print Assumptions blocks"""
     axioms = set()
-    for line in out.splitlines():
-        m = re.match(r"^([A-Za-z_][\w.]*)\s*:", line)
-        if m and "." in m.group(1): axioms.add(m.group(1))
+    # an axiom is printed as `Qualified.name : type`; the ` : type` part may start on the next line
+    for m in re.finditer(r"^([A-Za-z_][\w.']*)[ \t]*(?:\n[ \t]+)?:", out, flags=re.M):
+        if "." in m.group(1): axioms.add(m.group(1))
     closed = len(re.findall(r"Closed under the global context", out))
     return sorted(axioms), closed
 
